@@ -639,7 +639,7 @@ Proof.
   - eapply returns_weaken.
     { apply locked_returns with (Q := fun _ _ => True); [exact C3|rewrite H3; reflexivity|hf|].
       eapply returns_weaken; [apply node_delete_returns|]; [exact C3|cbn [held]; rewrite H3; reflexivity
-        |cbn [held]; reflexivity|auto]. }
+        |cbn [held]; reflexivity|right; exact Epk|auto]. }
     intros a m' _ _ f _ [E|[_ E]] _; discriminate.
 Qed.
 
@@ -953,7 +953,7 @@ Qed.
 
 (* RegisterTree, called by a service: the only way the content of a stored tree changes *)
 Lemma register_tree_returns : forall t m,
-  ready [] m -> X (t_id t) ->
+  ready [] m -> p_tree X (t_id t) ->
   returns X (register_tree fx t) m (fun _ _ => True).
 Proof.
   intros t m R Hx. pose proof R as (C & Hh & Hi). unfold register_tree.
@@ -976,7 +976,7 @@ Lemma register_absent_returns : forall t m,
              forall pm f,
                filter (fun pm => tk_tree (p_to pm) =? t_id t) (parked (os m)) = [pm] ->
                will_deliver (os m) t pm f ->
-               (~ X (t_id t) -> lookup (t_id t) (store (os m')) = Some (Have t)) /\
+               (~ p_tree X (t_id t) -> lookup (t_id t) (store (os m')) = Some (Have t)) /\
                In (EDeliver (p_to pm) (tk_node f)) (evs m')).
 Proof.
   intros t m C Hn Hi Hno. unfold register_tree.
@@ -1032,7 +1032,7 @@ Lemma handle_send_tree_returns : forall otm oro m,
                (exists asked, lookup (t_id t) (store (os m)) = Some (Req asked)) ->
                filter (fun pm => tk_tree (p_to pm) =? t_id t) (parked (os m)) = [pm] ->
                will_deliver (os m) t pm f ->
-               (~ X (t_id t) -> lookup (t_id t) (store (os m')) = Some (Have t)) /\
+               (~ p_tree X (t_id t) -> lookup (t_id t) (store (os m')) = Some (Have t)) /\
                In (EDeliver (p_to pm) (tk_node f)) (evs m')).
 Proof.
   intros otm oro m C Hn Hi Hb. unfold handle_send_tree.
